@@ -40,16 +40,14 @@ Fixpoint digits_loop (ds : bytes) (v : Z) : result Z :=
 (** readI after ReadSlice returned the line bs *)
 Definition parse_int_line (bs : bytes) : result Z :=
   if (length bs <? 3)%nat then Err eNoCRLF
+  else if hd 0 bs =? 63 then Err eChunked                       (* bs[0] == '?' *)
   else
-    match bs with
-    | 63 :: _ => Err eChunked
-    | _ =>
-      let '(s, ds) := match bs with 45 :: r => ((-1)%Z, r) | _ => (1%Z, bs) end in
-      match digits_loop (firstn (length ds - 2) ds) 0%Z with
-      | Ok v => Ok (wrap64 (v * s))
-      | Err e => Err e
-      | Panic => Panic
-      end
+    let s := if hd 0 bs =? 45 then (-1)%Z else 1%Z in           (* bs[0] == '-': s = -1; bs = bs[1:] *)
+    let ds := if hd 0 bs =? 45 then tl bs else bs in
+    match digits_loop (firstn (length ds - 2) ds) 0%Z with      (* range bs[:len(bs)-2] *)
+    | Ok v => Ok (wrap64 (v * s))
+    | Err e => Err e
+    | Panic => Panic
     end.
 
 Definition read_i : prog (result Z) :=
